@@ -216,7 +216,17 @@ class RandomReader(DataChunkReader):
             return None
 
         self.generator.reseed()
-        return self.generator(probe_size)
+        if probe_size <= self.chunksize:
+            return self.generator(probe_size)
+
+        # a probe larger than a chunk is drawn in chunks, one chunk per request
+        chunks = []
+        num_drawn = 0
+        while num_drawn < probe_size:
+            size = min(self.chunksize, probe_size - num_drawn)
+            chunks.append(self.generator(size))
+            num_drawn += size
+        return np.concatenate(chunks)
 
 
 class DataReader(DataChunkReader):
